@@ -124,6 +124,7 @@ func main() {
 		genResolver(c, sch)
 		genFormatter(c, sch)
 		genFmtCode(c, sch)
+		genResolverCode(c, sch)
 		genGrammar(c, sch, "php7")
 		genGrammar(c, sch, "php5")
 	}
